@@ -1,12 +1,15 @@
 # coding: utf-8
 """C20 -- registries."""
-from ..rules_registry import registry_data_lint, registry_rules
+from ..kernels3 import k22_combined, k22_embedded, k22_filesystem
+from ..rules_registry import known_resistance_rule, registry_data_lint
 
 
 def run(ctx):
     r = ctx.report
     r.explanation = (
-        "Sibling agreement for the three registry classes: __iter__, __len__ and __getitem__ derive their key set from "
+        "The three registry classes are evaluated on a symbolic world (an archive with arbitrary members, a directory with an "
+        "arbitrary listing, a member registry with arbitrary items; library calls replaced by stand-ins, T6) and what their "
+        "methods do there is compared with the property: __iter__, __len__ and __getitem__ derive their key set from "
         "the same source. Embedded: iteration = archive member names, lookup key = record.id, Item.id = the same "
         "expression as the key, all three read the same archive, no subclass overrides them; the data lint closes the gap "
         "between member name and record id on all tracked GenBank files (stem == the token Biopython turns into "
@@ -18,7 +21,11 @@ def run(ctx):
         ' Lookup succeeds only if characterisation works: the characterize/isabstract lemmas (C05) run here too. known-resistance is a key-provenance analysis (the key under which the table is read comes from the labels that were matched against the table). filesystem-keyerror#open: a path is opened only behind isfile() or a handler covering both fs.errors.ResourceNotFound and FileExpected.'
     )
     r.not_decided = ["fs.filterdir glob semantics", "GenBank parsing"]
-    ctx.guard(registry_rules, ctx, "C20")
+    # the three registry classes, run on a symbolic archive / directory / member registry (kernels3.py)
+    ctx.guard(k22_embedded, ctx, "C20")
+    ctx.guard(k22_filesystem, ctx, "C20")
+    ctx.guard(k22_combined, ctx, "C20")
+    ctx.guard(known_resistance_rule, ctx, "C20")
     ctx.guard(registry_data_lint, ctx, "C20.data")
     # every bundled registry builds its entities with <kit part base>.characterize(record): a lookup succeeds only if
     # characterisation tries the concrete part classes (isabstract on the class table) and returns an accepting one
